@@ -47,6 +47,12 @@ EXTRA_VALUES = [
 ]
 ERR_FORMULAS = ['=1/0', '=NA()', '="a"+1', '=SQRT(-1)', '=#REF!',
                 '=#NAME?', '=#NULL!']
+# formulas whose RESULT is of a particular kind: empty text, boolean, zero,
+# text spelling a number/boolean, integer-valued float, date
+KIND_FORMULAS = ['=IF(A1>5,"big","")', '=LEFT("abc",0)', '=A1&""', '=1=1',
+                 '=""', '="x"&"y"', '=A1*0', '=DATE(2020,1,2)', '=1=2',
+                 '=A1/4', '="TRUE"', '="12"', '=8/4', '=-A1*0',
+                 u'="\xe9"&"\xdf"', '=IF(A1>1000,1,)']
 TMP = [None]
 
 
@@ -74,6 +80,8 @@ def _build(d):
         errs['Sheet1!H%d' % (i + 1)] = d.choice(ERR_FORMULAS)
     if errs and d.pick(2):
         errs['Sheet1!H9'] = '=H1+1'
+    for i in range(d.pick(4)):
+        errs['Sheet1!I%d' % (i + 1)] = d.choice(KIND_FORMULAS)
     names = []
     if d.pick(3) == 0:
         cand = sorted(model['inputs']) + model['order']
@@ -87,7 +95,7 @@ def _build(d):
                 ['ref', 'NmRange']]], ['ref', names[0]['name']]]
             model['order'].append('Sheet1!F1')
     hist = []
-    cells = model['order'] + sorted(model['inputs'])
+    cells = model['order'] + sorted(model['inputs']) + sorted(errs)
     for _ in range(d.pick(7)):
         if d.pick(2) and model['order']:
             hist.append(['eval', d.choice(cells)])
@@ -95,7 +103,7 @@ def _build(d):
             hist.append(['set', d.choice(sorted(model['inputs'])),
                          d.choice([0, 1, -3, 2.5, 100, True, 'text', 7.0])])
     if d.pick(4) == 0:
-        hist = [['eval', c] for c in model['order']] + hist
+        hist = [['eval', c] for c in model['order'] + sorted(errs)] + hist
     post = [[d.choice(sorted(model['inputs'])),
              d.choice([0, 1, -3, 2.5, 100, 7.0])] for _ in range(d.pick(3))]
     return {'model': model, 'extras': extras, 'errs': errs, 'names': names,
